@@ -83,4 +83,12 @@ CLAIMS = {
             "Lean 4 theorem for every byte string: the model of best_encoding (two-stage scan with restart index) equals the property's three-way definition (C09_classify); the 256-entry classifier/value graphs regenerated from the compiled code equal ISO Table 5 (C09_tables); the chosen mode's alphabet always contains the input (C09_never_rejects). Correspondence: real builder's reported mode on exhaustive short strings, all class patterns, random long strings.",
             "Trusted: Lean kernel; axioms propext, Classical.choice, Quot.sound; hand model of best_encoding tied by correspondence (sampled beyond length 2); regenerated 256-entry graphs (translator).",
             "Lean 4 proof by induction over the scan + decide +kernel on regenerated 256-entry tables + differential correspondence"),
+    "C16": ("proof",
+            "Lean 4, fully symbolic: for EVERY matrix of odd side (all 40 symbol sides are odd) the model of "
+            "print_matrix_with_margin has (n+1)/2+1 lines of n+2 characters over the four glyphs and reading each character as a "
+            "(top, bottom) pair reproduces every module in place inside a one-module light border (C16_terminal, by induction "
+            "over the row pairs; no finite enumeration). Correspondence: real to_str() on symbols of all 40 sizes equals the "
+            "model's string byte for byte, and the spec decoder accepts it.",
+            "Trusted: Lean kernel (axioms propext, Classical.choice, Quot.sound); hand model of helpers.rs (35 lines) tied by exact-string correspondence.",
+            "Lean 4 symbolic proof (induction over lines) + exact-string differential check on all 40 sizes"),
 }
